@@ -153,7 +153,7 @@ def gen_cfg(rng, small=True, modes=None):
     raise RuntimeError("no config")
 
 
-def gen_ops(rng, cfg, nops, invalid_rate=0.0, blocks=True, close=True):
+def gen_ops(rng, cfg, nops, invalid_rate=0.0, blocks=True, close=True, style=None):
     """ops: ("w", ns|None, len, tag0) | ("b", len, tag0, G, D) | ("c",)
     keeps a shadow cursor so that most calls are valid; tags are consecutive and never reused"""
     pf = cfg.per_file()
@@ -166,9 +166,18 @@ def gen_ops(rng, cfg, nops, invalid_rate=0.0, blocks=True, close=True):
         F = F_of(cfg, K)
         return file_start(cfg, F + cfg.fc) - K
 
+    if style is None:
+        style = rng.choice(["edges", "edges", "dense"])
+    if style == "dense":
+        nops = nops + rng.randrange(2, 6)
     for _ in range(nops):
-        gapc = [0, 0, 0, 1, 2, to_edge(cur) - 1, to_edge(cur), to_edge(cur) + 1, pf, 3 * pf + 1]
-        lens = [1, 1, 2, pf - 1, pf, pf + 1, 2 * pf + 1, to_edge(cur), max(1, to_edge(cur) - 1), to_edge(cur) + 1]
+        if style == "dense":
+            # many small writes and multi-block calls inside one file
+            gapc = [0, 0, 0, 1, 1, 2, 3]
+            lens = [1, 1, 2, 2, 3, 4]
+        else:
+            gapc = [0, 0, 0, 1, 2, to_edge(cur) - 1, to_edge(cur), to_edge(cur) + 1, pf, 3 * pf + 1]
+            lens = [1, 1, 2, pf - 1, pf, pf + 1, 2 * pf + 1, to_edge(cur), max(1, to_edge(cur) - 1), to_edge(cur) + 1]
         bad = rng.random() < invalid_rate
         if blocks and rng.random() < 0.4:
             nb = rng.choice([1, 2, 2, 3, 4])
@@ -181,7 +190,10 @@ def gen_ops(rng, cfg, nops, invalid_rate=0.0, blocks=True, close=True):
                 D.append(off)
                 off += ln
                 e = to_edge(g + ln)
-                g = g + ln + max(0, rng.choice([0, 1, 1, 2, e - 1, e, e + 1, pf]))
+                if style == "dense":
+                    g = g + ln + rng.choice([0, 1, 1, 2, 3])
+                else:
+                    g = g + ln + max(0, rng.choice([0, 1, 1, 2, e - 1, e, e + 1, pf]))
             total = off
             if bad:
                 kind = rng.choice(["past", "d0", "len", "dorder", "gorder", "dbeyond", "overlap"])
@@ -288,6 +300,7 @@ def make_writer(cfg, chdir, uuid="verif-uuid"):
 def run_impl(cfg, ops, chdir, hook=None):
     """execute ops on a real DigitalRFWriter; returns per-op reports [cls, ret, next, written, gap]"""
     os.makedirs(chdir, exist_ok=True)
+    common.set_current({"api": "python", "cfg": cfg.as_dict(), "ops": [list(o) for o in ops]})
     w = make_writer(cfg, chdir)
     reports = []
     for i, op in enumerate(ops):
@@ -340,6 +353,19 @@ def dump_files(chdir):
                           rows=[(int(r[0]), int(r[1])) for r in idx], data=data, attrs=attrs))
     files.sort(key=lambda x: x["ms"])
     return files
+
+
+def expected_subdir(cfg, ms):
+    import datetime
+    S = cfg.sc * ((ms // 1000) // cfg.sc)
+    dt = datetime.datetime(1970, 1, 1) + datetime.timedelta(seconds=S)
+    return "%04d-%02d-%02dT%02d-%02d-%02d" % (dt.year, dt.month, dt.day, dt.hour, dt.minute, dt.second)
+
+
+def misplaced_files(cfg, impl_files):
+    """files whose directory is not the one the layout names for their time (C04)"""
+    return [(f["subdir"], f["name"], expected_subdir(cfg, f["ms"])) for f in impl_files
+            if f["subdir"] != expected_subdir(cfg, f["ms"])]
 
 
 def compare_files(cfg, model_files, impl_files):
@@ -462,6 +488,10 @@ def run_histories(res, nhist, oracle, invalid_rate=0.0, blocks=True, modes=None,
                 if diff:
                     res.disagree("writer model vs implementation: files on disk: " + diff, hist, None, None)
                     ndis += 1
+        bad = misplaced_files(cfg, files)
+        if bad:
+            res.violation("file-in-wrong-subdirectory", "a data file is not in the subdirectory the layout names for its time",
+                          hist, bad[0][2], list(bad[0][:2]))
         oracle(cfg, ops, reports, files, chdir, mrep, mfiles, hist)
         if not keep:
             shutil.rmtree(os.path.dirname(chdir), ignore_errors=True)
@@ -522,6 +552,7 @@ def run_capi(cfg, ops, chdir, hook=None):
     import ctypes
     lib = capi()
     os.makedirs(chdir, exist_ok=True)
+    common.set_current({"api": "C", "cfg": cfg.as_dict(), "ops": [list(o) for o in ops]})
     obj = lib.shim_create(chdir.encode(), cfg.sc, cfg.fc, cfg.start, cfg.n, cfg.d, cfg.comp, int(cfg.cksum), int(cfg.cont))
     if not obj:
         raise common.Broken("digital_rf_create_write_hdf5 returned NULL")
